@@ -243,6 +243,11 @@ class KInterp:
             for g, p_ in test.cases:
                 b = b | (BExpr([g]) & b_ne0(p_))
             test = b
+        if isinstance(test, AnyOf) and s.orelse is not None and "any:*" in self.consts and not isinstance(s.test, ast.Call) \
+                and not (isinstance(s.test, ast.UnaryOp) and isinstance(s.test.operand, ast.Call)):
+            # a stored np.any(...) flag (has_internals): follow the configured arm
+            choose = bool(self.consts["any:*"]) != test.negated
+            return self.block(s.body if choose else s.orelse, st)
         if isinstance(test, AnyOf):
             # whole-array shortcut
             only_log = all(isinstance(x, ast.Expr) and isinstance(x.value, ast.Call)
@@ -491,6 +496,10 @@ class KInterp:
             return v
         if isinstance(v, MaskedView):
             return self._as_num(v.base)
+        if isinstance(v, NodeRange):
+            return GExpr.of(Poly.sym("arange", v.what))
+        if isinstance(v, LenOf):
+            return GExpr.of(Poly.sym("len", v.what))
         if isinstance(v, Poly):
             return GExpr.of(v)
         if isinstance(v, PyVal) and isinstance(v.v, (bool, int, float)) and v.v is not None:
@@ -679,6 +688,11 @@ class KInterp:
                 return self.eval(e.body, st)
             if isinstance(t, PyVal):
                 return self.eval(e.body if t.v else e.orelse, st)
+            if isinstance(t, AnyOf):
+                if "any:*" not in self.consts:
+                    raise Unsupported("conditional expression on np.any/np.all: %s" % U(e.test))
+                choose = bool(self.consts["any:*"]) != t.negated
+                return self.eval(e.body if choose else e.orelse, st)
             return self._select(self._as_bool(t), self.eval(e.body, st), self.eval(e.orelse, st))
         if isinstance(e, ast.Subscript):
             return self._subscript(e, st)
@@ -1189,8 +1203,12 @@ class KInterp:
                 return outs if n_out > 1 else outs[0]
             if short == "arange":
                 v = ev(0)
-                if isinstance(v, LenOf):
+                if isinstance(v, LenOf) and len(args) == 1:
                     return NodeRange(v.what)
+                vals_ = [self._as_num(self.eval(a_, st)) if not isinstance(self.eval(a_, st), LenOf)
+                         else GExpr.of(Poly.sym("len", self.eval(a_, st).what)) for a_ in args]
+                if all(x_.plain() is not None for x_ in vals_):
+                    return GExpr.of(apply_fn("np.arange", [x_.plain() for x_ in vals_]))
                 raise Unsupported("arange of %s" % U(args[0]))
             if short == "concatenate":
                 parts = ev(0)
